@@ -888,3 +888,102 @@ def monitor_c07(se, stats):
                     viol.append({"step": i, "kind": "stall", "what": "stall: queue %s holds %d waiting message(s) (head %s, %d bytes) while consumer %s on channel %d.%d is started, flow on, windows %s admit it - and the broker is idle (after `%s`)" % (
                         qn, len(q["ready"]), head, size, tag, c, h, "n/a" if cm["noack"] else ws, st["op"])})
     return viol
+
+
+def monitor_c05(se, stats):
+    """Publisher confirms: per channel instance in confirm mode, the n-th accepted publish since confirm.select is owed
+    exactly one acknowledgement numbered n (a multiple-ack counts for every number it covers); none for a number that
+    was not published; at quiescence, while the channel is open, nothing is owed."""
+    viol = []
+    inst = {}   # (c,h) -> {"n": publishes numbered so far, "acked": set(), "on": bool}
+    prev = None
+    for i, st in enumerate(se["steps"]):
+        if st["snap"] == ["WEDGED"]:
+            break
+        cur = parse_snap(st["snap"])
+        subs = [x.strip() for x in st["op"][6:].split("|")] if st["op"].startswith("MULTI ") else [st["op"]]
+        multi = len(subs) > 1
+        fr = frames_of(st)
+        touched = set()
+        for op in subs:
+            f = op.split()
+            if f[0] in ("CH",):
+                inst[(int(f[1]), int(f[2]))] = {"n": 0, "acked": set(), "on": False}
+            elif f[0] in ("CHCLOSE", "CHCLOSEOK"):
+                inst.pop((int(f[1]), int(f[2])), None)
+            elif f[0] in ("DROP", "CLOSE", "CLOSEOK", "OPEN"):
+                for k in [k for k in inst if k[0] == int(f[1])]:
+                    inst.pop(k)
+            elif f[0] == "CONFIRM":
+                k = (int(f[1]), int(f[2]))
+                if k in inst:
+                    inst[k]["on"] = True
+            elif f[0] == "PUB":
+                k = (int(f[1]), int(f[2]))
+                if k in inst and inst[k]["on"]:
+                    touched.add(k)
+                    inst[k]["pubs_this_step"] = inst[k].get("pubs_this_step", 0) + 1
+            elif f[0] in ("PUBM", "HDR", "BODY"):
+                # split publishes: numbering follows the broker's own counter (checked against the model by T1)
+                k = (int(f[1]), int(f[2]))
+                if k in inst:
+                    inst[k]["loose"] = True
+        # a channel or connection the broker closed in this step ends its instances
+        for (c, h, name, args, _) in fr:
+            if name == "channel.close":
+                inst.pop((c, h), None)
+            if name in ("connection.close", "GONE"):
+                for k in [k for k in inst if k[0] == c]:
+                    inst.pop(k)
+        for k, it in list(inst.items()):
+            ch = cur["chans"].get(k)
+            if ch is None or ch["st"] != 1:
+                inst.pop(k)
+                continue
+            if not ch["confirm"]:
+                it["on"] = False
+                it.pop("pubs_this_step", None)
+                continue
+            # numbering: every accepted publish of the step takes the next number; the broker's counter must agree
+            p = it.pop("pubs_this_step", 0)
+            if it.get("loose") or multi:
+                it["n"] = ch["ctag"]
+            else:
+                it["n"] += p
+                if ch["ctag"] != it["n"]:
+                    viol.append({"step": i, "kind": "numbering", "what": "channel %d.%d: %d publishes since confirm.select but the broker's sequence counter says %d (after `%s`)" % (k[0], k[1], it["n"], ch["ctag"], st["op"])})
+                    it["n"] = ch["ctag"]
+            stats["confirm_publishes"] = stats.get("confirm_publishes", 0) + p
+        # acks of this step
+        for (c, h, name, args, _) in fr:
+            if name != "basic.ack":
+                continue
+            k = (c, h)
+            t, mult = int(args[0]), args[1] == "1"
+            stats["acks_seen"] = stats.get("acks_seen", 0) + 1
+            it = inst.get(k)
+            if it is None:
+                # the channel instance ended within this step (close raced the ack): nothing to attribute it to
+                pch = prev["chans"].get(k) if prev else None
+                if pch is None or not pch["confirm"]:
+                    viol.append({"step": i, "kind": "unpublished", "what": "basic.ack(%d) on channel %d.%d which is not a confirm-mode channel instance (after `%s`)" % (t, c, h, st["op"])})
+                continue
+            covered = [x for x in range(1, t + 1) if x not in it["acked"]] if mult else [t]
+            if t > it["n"] or t < 1:
+                viol.append({"step": i, "kind": "unpublished", "what": "channel %d.%d: basic.ack(%d) but only %d publishes were made on this channel instance since confirm.select (after `%s`)" % (c, h, t, it["n"], st["op"])})
+                continue
+            for x in covered:
+                if x in it["acked"]:
+                    viol.append({"step": i, "kind": "duplicate", "what": "channel %d.%d: publish %d acknowledged twice (after `%s`)" % (c, h, x, st["op"])})
+                it["acked"].add(x)
+        # nothing owed at quiescence
+        for k, it in inst.items():
+            if not it["on"]:
+                continue
+            owed = [x for x in range(1, it["n"] + 1) if x not in it["acked"]]
+            stats["instances_checked"] = stats.get("instances_checked", 0) + 1
+            if owed:
+                viol.append({"step": i, "kind": "owed", "what": "channel %d.%d: the broker is idle but publishes %s were never acknowledged (%d published, after `%s`)" % (k[0], k[1], owed[:8], it["n"], st["op"])})
+                it["acked"].update(owed)   # report each once
+        prev = cur
+    return viol
